@@ -11,6 +11,7 @@ Granularities (which trace events are scheduling points):
   'cache'  line events inside recognizers_text/model.py and recognizer.py (the check-then-act on the
            process-wide model cache), call events of every other library function
   'calls'  call events of every library function
+  ('files', suffixes)  call events of every function defined in the named source files
   'methods' call events of extract()/parse() methods only (few points per call: used for 2-preemption bounds)
   'coarse' call events of extract()/parse() methods and of every function defined in the orchestrating
            modules (merged extractor/parser, model classes, model factory): the method boundaries of the
@@ -104,6 +105,10 @@ class Execution(object):
                 if frame.f_code.co_name in COARSE_NAMES or fn.endswith(COARSE_FILES):
                     point(tid)
                 return None
+            if isinstance(gran, tuple) and gran[0] == 'files':     # ('files', suffixes): every call of a function defined there
+                if fn.endswith(gran[1]):
+                    point(tid)
+                return None
             if gran == 'methods':
                 if frame.f_code.co_name in COARSE_NAMES:
                     point(tid)
@@ -167,3 +172,29 @@ def plans_up_to(bound, counts):
                 for k2 in range(1, counts[b]):
                     out.append([(a, k1), (b, k2), (a, None), (b, None)])
     return out
+
+
+def pick_and_run(ch, cache, key, lib_root, granularity, bound, bodies, prepare=None, chunk=None):
+    """Driver-side helper: measure the two threads' scheduling points once per worker (bound-0 runs), let the explorer
+    pick one plan with at most `bound` preemptions (optionally through a chunk decision that ends the shard prefix),
+    run it and return the Execution."""
+    if key not in cache:
+        cs = []
+        for first in (0, 1):
+            if prepare:
+                prepare()
+            ex = run_plan(lib_root, granularity, [(first, None), (1 - first, None)], bodies)
+            cs.append(ex.points[first])
+        cache[key] = cs
+    plans = plans_up_to(bound, cache[key])
+    if chunk:
+        ci = ch.pick_index('chunk', (len(plans) + chunk - 1) // chunk)
+        ch.shard()
+        plans = plans[ci * chunk:(ci + 1) * chunk]
+    plan = ch.pick('plan', plans)
+    if prepare:
+        prepare()
+    ex = run_plan(lib_root, granularity, plan, bodies)
+    ch.tally('schedules')
+    ch.tally('context_switches', ex.switches)
+    return plan, ex
